@@ -81,7 +81,8 @@ package workflow
 //@ ghost known(l *loopState, s string) bool
 //@ pred wfloop(l *loopState) = l != nil && l.logger != nil && l.config != nil && l.lock != nil && l.data != nil && l.dag != nil && \
 //@     l.runningSteps != nil && l.outputDataChannel != nil && l.waitingOutputs != nil && l.context != nil && \
-//@     l.recentErrors != nil && l.cancel != nil && chcap(l.outputDataChannel) == 1 && chcap(l.recentErrors) == 20 && l.completedSteps != nil
+//@     l.recentErrors != nil && l.cancel != nil && chcap(l.outputDataChannel) == 1 && chcap(l.recentErrors) == 20 && l.completedSteps != nil && \
+//@     cancels(l.cancel, l.context)
 //
 //@ lockinv loopState.lock
 //@   inv [output-handed-over-at-most-once] !outputDone ==> chlen(outputDataChannel) == 0 && !closed(outputDataChannel)
@@ -265,6 +266,11 @@ package workflow
 //@   requires wfloop(l) && held(l.lock) && lockinv(l) && wfitems(l.dag) && stepsKnown(l)
 //@   modifies l.outputDone, map l.waitingOutputs, ghost nodestatus, chan l.outputDataChannel, chan l.recentErrors
 //@   ensures [only-nodes-of-this-runs-graph-change] forall n any :: nodestatus(n) != old(nodestatus(n)) ==> nodedag(n) == l.dag
+// An error queued here wakes Execute only through the cancellation of the run: reporting without
+// cancelling leaves the run waiting for unrelated (possibly never-ending) steps.
+//@   ensures [an-error-queued-while-notifying-ends-the-run] sentnow(l.recentErrors) ==> ctxdone(l.context)
+//@   loop 1 invariant sentnow(l.recentErrors) ==> ctxdone(l.context)
+//@   loop 2 invariant sentnow(l.recentErrors) ==> ctxdone(l.context)
 //@   loop 1 invariant forall n any :: nodestatus(n) != old(nodestatus(n)) ==> nodedag(n) == l.dag
 //@   loop 2 invariant forall n any :: nodestatus(n) != old(nodestatus(n)) ==> nodedag(n) == l.dag
 //@   ensures lockinv(l)
